@@ -40,7 +40,7 @@ type sets struct {
 func fieldSets(thorough bool) sets {
 	s := sets{
 		// "#012": the printable characters a client can type that look like rsyslog's escape of a line feed
-		users: []string{"a", "root", "a.b-c_d@e$", "ユーザー", strings.Repeat("x", 32), "dep#012loy"},
+		users: []string{"a", "root", "a.b-c_d@e$", "ユーザー", strings.Repeat("x", 32), "dep#012loy", "adm\xff\xfein"}, // (the last: two bytes that are not UTF-8, e.g. a Latin-1 name)
 		// addresses are recorded as printed: the upper-case, zero-padded, uncompressed and v4-mapped-hex
 		// spellings parse as IP addresses but are not what a canonicalising formatter would print
 		addrs:    []string{"1.2.3.4", "::1", "fe80::1%eth0", "2001:db8::ffff:1.2.3.4", "host.example.com", "FE80::0001", "0:0:0:0:0:0:0:1", "::ffff:a00:1"},
@@ -48,7 +48,7 @@ func fieldSets(thorough bool) sets {
 		keytypes: []string{"RSA", "DSA", "ECDSA", "ED25519", "ECDSA-SK", "ED25519-SK", "XMSS", "WEBAUTHN-SK-ECDSA"},
 		fps:      []string{"SHA256:YI+caZKJCNaXgsD0NvRZ2fLaEeF46cEVyadru/SL76o", "MD5:aa:bb:cc:dd:ee:ff:00:11:22:33:44:55:66:77:88:99"},
 		keyids:   []string{"k", "a b", "x (serial 7)", "serial", "ID y", "(z) CA q", "foo@bar.com", "two  blanks"},
-		serials:  []string{"0", "18446744073709551615"},
+		serials:  []string{"0", "18446744073709551615", "18446744073709551616", "7777777777777777777777777777777777777777"}, // 2^64-1, 2^64, 40 digits: the serial is text
 		cas:      []string{"CA ED25519 SHA256:Pcs5TWfcOSKb7Rw/XyvHfUcaQzmw6HtLrjUoyXuzIj8", "CA RSA MD5:aa:bb:cc:dd:ee:ff:00:11:22:33:44:55:66:77:88:99"},
 		shells:   []string{"/bin/zsh", "/opt/my shell/sh", "x", "/opt/tab\tand  blanks/sh"},
 		paths:    []string{"/home/a/.ssh/authorized_keys", "/etc/ssh/revoked keys", "/x", "/srv/my  files/keys"},
@@ -57,7 +57,7 @@ func fieldSets(thorough bool) sets {
 		hosts:    []string{"1.2.3.4", "host.example.com", "fe80::1%eth0"},
 	}
 	if !thorough {
-		s.users = []string{"a", "a.b-c_d@e$", "ユーザー", "dep#012loy"}
+		s.users = []string{"a", "a.b-c_d@e$", "ユーザー", "dep#012loy", "adm\xff\xfein"}
 		s.addrs = []string{"1.2.3.4", "fe80::1%eth0", "host.example.com", "FE80::0001"}
 		s.ports = []string{"0", "65535"}
 		s.keytypes = []string{"RSA", "ED25519", "ECDSA-SK", "XMSS"}
